@@ -135,6 +135,26 @@ let run (entry : string) (inp : Sx.t) : Sx.t =
       (match Ingest.col_ops false BinNums.Z0 (to_list to_item items) with
        | None -> A "rejected"
        | Some ops -> of_list of_cell (Ingest.expected (f2s_of tbl) ops))
+  (* (f2s (segment ...)) with segment = (item ...): one column of a table over several table buffers.
+     A buffer in which no batch mentions the column has no such column: SELECT yields NULL for its rows. *)
+  | "api_table_col", L [tbl; segs] ->
+      let f2s = f2s_of tbl in
+      let exception Stop of Sx.t in
+      (try
+         let cells = List.concat_map (fun seg ->
+           let items = to_list to_item seg in
+           if List.for_all (fun (cd, _) -> cd = None) items then
+             let n = List.fold_left (fun acc (_, rows) -> acc + Z.to_int (z_of_cz rows)) 0 items in
+             List.init n (fun _ -> A "null")
+           else
+             match Ingest.col_ops false BinNums.Z0 items with
+             | None -> raise (Stop (A "rejected"))
+             | Some ops ->
+               (match Ingest.stored f2s ops with
+                | Val cs -> List.map of_cell cs
+                | Panic s -> raise (Stop (L [A "panic"; of_site s])))) (lst segs) in
+         L cells
+       with Stop x -> x)
   | "i64_to_f64", z -> of_z (FloatEnc.i64_to_f64 (to_z z))
   | "i64_to_string", z -> of_zbytes (ColumnBuffer.i64_to_string (to_z z))
   | _ -> raise (Conv ("unknown entry or bad input shape: " ^ entry))
